@@ -54,6 +54,7 @@ func cmdDump(args []string) {
 	noSolve := fs.Bool("nosolve", false, "generate only")
 	bisect := fs.Bool("bisect", false, "find the first assertion that makes the assumptions unsatisfiable")
 	fullCovers := fs.Bool("fullcovers", false, "cover queries on the full assumption set")
+	oblF := fs.String("obl", "", "only obligations whose name contains this string")
 	fullModel := fs.String("fullmodel", "", "write the full model of failing obligations whose name contains this string to /tmp/gvc-model-<n>.txt")
 	fs.Parse(args)
 	pats := defaultPkgs
@@ -93,14 +94,27 @@ func cmdDump(args []string) {
 		t1 := time.Now()
 		rep := e.verifyFunction(fn, ct)
 		gen := time.Since(t1).Seconds()
+		if *oblF != "" {
+			var sel []*Obl
+			for _, o := range rep.Obls {
+				if strings.Contains(o.Name, *oblF) {
+					sel = append(sel, o)
+				}
+			}
+			rep.Obls = sel
+		}
 		if *bisect && len(rep.Obls) > 0 {
 			bisectAssumptions(rep.Obls[len(rep.Obls)-1])
 			continue
 		}
 		if *noSolve {
 			tot := 0
-			for _, o := range rep.Obls {
-				tot += len(o.script(false))
+			for i, o := range rep.Obls {
+				sc := o.script(false)
+				tot += len(sc)
+				if *keep {
+					os.WriteFile(fmt.Sprintf("%s/obl%d.smt2", work, i), []byte(sc), 0o644)
+				}
 			}
 			fmt.Printf("== %s: %d obligations generated in %.2fs, total script bytes %d\n", rep.Func, len(rep.Obls), gen, tot)
 			continue
